@@ -105,8 +105,8 @@ W = [
          json_lines=[{'x': '1\n2'}]),
     dict(id='dtparse-panic', commit='11f8b40', props=['C11'], query='* | parse "ts=*" as ts | parseDate(ts) as d | count', input='ts=2020-01-01\nts=12:30 -\nts=10:15:PM\nts=2020-01-02\n',
          stdout='[{"_count":2}]\n'),
-    dict(id='underflow-is-a-float', commit='00e4db6', props=['C08', 'C05'], query='* | json | m - 1 as d | x + y as s | fields d, s', input='{"m":-9223372036854775808,"x":-9223372036854775807,"y":-3}\n',
-         stdout='{"d":-9.223372036854776e18,"s":-9.223372036854776e18}\n'),
+    dict(id='int-min-trichotomy', commit='d2a8efa', props=['C05', 'C08', 'C13'], query='* | json | a - d as x | x < a as lt | x == a as eq | x > a as gt | fields lt, eq, gt',
+         input='{"a":-9223372036854775808,"d":1}\n', json_lines=[{'eq': True, 'gt': False, 'lt': False}]),
     dict(id='date-is-not-a-number', commit='9840533', props=['C05'], query='* | json | parseDate(a) + parseDate(b) as r | count', input='{"a":"2021-08-11T00:00:00Z","b":"2021-08-12T00:00:00Z"}\n',
          args=['-o', 'json'], stdout='[]\n'),
     dict(id='zero-duration-text', commit='5af605b', props=['C18', 'C19'], query='* | json | parseDate(s) - parseDate(s) as z | 1500ns as t | fields z, t', input='{"s":"2021-08-11T10:00:00Z"}\n',
@@ -116,6 +116,8 @@ W = [
     dict(id='quoted-blank-literal', commit='a0b40fc', props=['C02'], query='"a b" | count', input='a b\na\tb\naXb\n', stdout='[{"_count":1}]\n'),
     dict(id='avg-of-nothing', commit='c7662ad', props=['C01', 'C03'], query='* | json | avg(v) by k | sum(_average) as s', input='{"k":"a","v":1}\n{"k":"a","v":3}\n{"k":"b","v":"n/a"}\n{"k":"c","v":10}\n',
          stdout='[{"s":12}]\n'),
+    dict(id='all-infinite-extremum', commit='04d0ab4', props=['C01', 'C08'], query='* | json | min(b/d) as lo, max(0-b/d) as hi | lo > 1000 as big | hi < 0-1000 as small | fields big, small',
+         input='{"b":1,"d":0}\n{"b":2,"d":0}\n', stdout='[{"big":true,"small":true}]\n'),
     dict(id='infinite-extremum', commit='4eedbc5', props=['C01', 'C08'], query='* | json | max(b/d) as hi | hi > 1000 as big | fields big', input='{"b":100,"d":2}\n{"b":50,"d":0}\n{"b":30,"d":3}\n',
          stdout='[{"big":true}]\n'),
     dict(id='percentile-nan', commit='28baf50', props=['C01', 'C14'], query='* | parse "*" as v | p50(v)', input='3\n7\n8\n10\n2\nnan\n1\n9\n5\n6\n4\n', stdout='[{"p50":5}]\n'),
